@@ -1,71 +1,11 @@
-import OpcuaVerif.Model.C12
+import OpcuaVerif.Model.SrvConn
 
 /-
 C10 — memory held for an incomplete incoming message.
 
-Server: `TcpTransport::process_chunk` (lib/src/server/comms/tcp_transport.rs) on an open,
-policy-None connection: abort clears `pending_chunks`, the limits on chunk count and on buffered
-bytes (after the `fix:` commit; `bounded = false` is the pinned source with its TODO), push, and for
-a final chunk `process_final_chunk` (drain, validate sequence numbers, decode, dispatch).
-A chunk is its header triple plus its total size in bytes; `l0` is the length of the request that
-opens the body stream the harness sends (the rest of the bodies is padding), so decoding succeeds
-iff at least `l0` body bytes were collected.
-
-Framing layer: `TcpCodec::decode` is `Model.C11.decodeStep` (`Opts.early` = after the fix).
+Server: the model of one server connection is `Model/SrvConn.lean` (shared with C15 and C12):
+`process_chunk` for EVERY chunk type (MSG / OPN / CLO) and flag (C / F / A), before and after
+Hello and OpenSecureChannel, with the limit checks of the `fix:` commit (`bounded = false` there is
+the pinned source).  Client: `Model/C12Client.lean`.  Framing layer: `Model/C11.lean`
+(`decodeStep`, `Opts.early`).
 -/
-namespace OpcuaVerif.C10
-open OpcuaVerif.C11 OpcuaVerif.C12
-
-structure Srv where
-  maxChunks : Nat              -- decoding_options.max_chunk_count (0 = no limit)
-  maxMsg : Nat                 -- decoding_options.max_message_size (0 = no limit)
-  l0 : Nat
-  chanId : Nat
-  last : Nat
-  pending : List (CI × Nat)    -- pending_chunks with their data.len()
-  closed : Bool
-deriving Repr, DecidableEq
-
-def Srv.bytes (s : Srv) : Nat := (s.pending.map (·.2)).sum
-
-inductive Out where
-  | stored
-  | accepted (req : Nat)
-  | rejected (code : String)       -- Err(code): pending cleared where the source clears it, loop ends
-  | closed
-deriving Repr, DecidableEq
-
-/-- `process_chunk` for a MSG chunk of `size` bytes (≥ 24: 12 header + 4 token + 8 sequence) -/
-def Srv.chunk (bounded : Bool) (s : Srv) (c : CI) (f : Fin) (size : Nat) : Srv × Out :=
-  if s.closed then (s, .closed) else
-  match f with
-  | .abort => ({ s with pending := [] }, .stored)
-  | _ =>
-    if bounded ∧ s.maxChunks > 0 ∧ s.pending.length ≥ s.maxChunks then
-      ({ s with pending := [], closed := true }, .rejected "BadEncodingLimitsExceeded")
-    else if bounded ∧ s.maxMsg > 0 ∧ s.bytes + size > s.maxMsg then
-      ({ s with pending := [], closed := true }, .rejected "BadTcpMessageTooLarge")
-    else
-      let pend := s.pending ++ [(c, size)]
-      if f = .intermediate then ({ s with pending := pend }, .stored)
-      else
-        -- final: drain, validate, decode
-        match recv s.last s.chanId (pend.map fun p => some p.1) with
-        | .err e => ({ s with pending := [], closed := true }, .rejected e)
-        | .panic => ({ s with pending := [], closed := true }, .rejected "panic")   -- unreachable (recv_total)
-        | .ok last' =>
-          let body := (pend.map fun p => p.2 - 24).sum
-          if body < 4 then ({ s with pending := [], last := last', closed := true }, .rejected "BadDecodingError")
-          else if body < s.l0 then
-            ({ s with pending := [], last := last', closed := true }, .rejected "BadServiceUnsupported")
-          else
-            let req := match pend with
-              | p :: _ => p.1.req
-              | [] => 0
-            ({ s with pending := [], last := last' }, .accepted req)
-
-def Srv.run (bounded : Bool) : Srv → List (CI × Fin × Nat) → Srv
-  | s, [] => s
-  | s, (c, f, n) :: r => Srv.run bounded (s.chunk bounded c f n).1 r
-
-end OpcuaVerif.C10
